@@ -419,7 +419,11 @@ func (rn *runner) checkIter(s *sut, start []byte, got []pair, err error, h []op,
 	}
 	for _, p := range got {
 		if bytes.Compare(p.K, start) < 0 {
-			rn.violate("C02/iter-content:before-start", fmt.Sprintf("key %x below start %x delivered", p.K, start), h, i)
+			if bytes.HasPrefix(start, p.K) { // same root cause as iter-order:prefix-key: the terminator sorts after every nibble
+				rn.violate("C02/iter-seek:prefix-key", fmt.Sprintf("NodeIterator(%x) delivers key %x, a proper prefix of (hence below) the start key", start, p.K), h, i)
+			} else {
+				rn.violate("C02/iter-content:before-start", fmt.Sprintf("key %x below start %x delivered", p.K, start), h, i)
+			}
 		}
 	}
 	// order
